@@ -290,7 +290,7 @@ pub fn run(ctx: &Ctx) {
     ));
     run_regress(ctx, SUBS);
     drive_enum(ctx, &SUBS[0], sweep::cases().len() as u64);
-    drive_random(ctx, &SUBS[1], ctx.n(30_000, 2_000_000), 256);
+    drive_random(ctx, &SUBS[1], ctx.n(30_000, 20_000_000), 256);
 }
 
 pub fn finish(ctx: &Ctx) -> i32 {
